@@ -122,6 +122,21 @@ def gen_unit(rng, bad=False):
     return "|".join(fields)
 
 
+def truth_of(unit):
+    """(chain, number, icode, name) of a plainly well-formed unit id; 'bad' when a field is missing / not a plain integer;
+    None when the text is in the grey zone (spaces, underscores, signs) that only the model decides"""
+    f = unit.split("|")
+    if len(f) < 5:
+        return "bad"
+    num = f[4]
+    if re.fullmatch(r"-?[0-9]+", num):
+        ic = f[7] if len(f) >= 8 and f[7] != "" else None
+        return [f[2], int(num), ic, f[3]]
+    if re.fullmatch(r"[0-9a-zA-Z.]*[a-zA-Z.][0-9a-zA-Z.]*", num) or num in ("", "-", "1-2", "++1"):
+        return "bad"
+    return None
+
+
 def gen_label(rng):
     r = rng.random()
     if r < 0.35:
@@ -189,6 +204,28 @@ def run(ctx):
         if isinstance(got, Err):
             ctx.violation(f"importing an FR3D listing raised {got.kind}", {"listing": text})
             continue
+        # spec: every line with two well-formed unit ids (as generated) yields exactly one interaction between exactly those residues
+        want = []
+        for l in lines:
+            st = l.strip()
+            if not st or st.startswith("#"):
+                continue
+            parts = st.split("\t")
+            if len(parts) < 3:
+                continue
+            t1, t2 = truth_of(parts[0]), truth_of(parts[2])
+            if t1 is None or t2 is None:
+                want = None
+                break
+            if t1 == "bad" or t2 == "bad":
+                continue
+            cat, cls = oracle(parts[1])
+            want.append([cat, t1, t2, cls])
+        if want is not None:
+            wanted = [w for c in CAT_ORDER for w in want if w[0] == c]
+            if got != wanted:
+                ctx.violation("a listing line is not imported as exactly one interaction between exactly the residues its unit ids name",
+                              {"listing": text, "imported": got, "expected": wanted})
         # the implementation files interactions per category; the model keeps file order: compare per category
         model_lines = text.split("\n")
         if model_lines and model_lines[-1] == "":
